@@ -2,18 +2,26 @@ import LaunchpadModel.Model.Supply
 import LaunchpadModel.Model.Proto
 /-!
 Driver for C01 (supply accounting). One output line per input line. Words the model does not know (`who=`, `pay=`,
-`via=` …) are harness-side parameters and are ignored here; the model reads the *witness* fields the harness appends.
+`via=`, `what=`, `arg=` …) are harness-side parameters and are ignored here; the model reads the *witness* fields the
+harness appends.
 
 Header:  `case fam=fixed kind=<0..9> n=<n> … init=<id,id,…>`            (init = initial `mt` dump, checked to be a permutation of 1..n)
          `case fam=seq kind=<6|7|8|10> num=<n|-> fmax=<k> end=<0|1> …`
          answer `case ok <obs>` | `case err`
 Ops (fixed): `mint|mint_to … gate= pos= owner=`, `deposit … eff=<0|1> gate= pos= owner=`, `mint_for … gate= id= owner=`,
          `shuffle … gate= perm=`, `purge … gate=`, `burn_remaining … gate=`, `coll_burn … gate= id=`,
-         `coll_transfer … gate= id= to=`, `noise … gate=`, `t …`
-Ops (seq):   `mint|mint_to … gate= owner=`, `burn_remaining`, `purge`, `coll_burn`, `coll_transfer`, `noise`, `t`
-Answer: `ok [id=<minted id>] <obs>` | `err <obs>`  (the state after a failed op is printed too: it must be unchanged)
-obs (fixed): `m=<MintableNumTokens> pos=<position:id,…> cnt=<NumTokens> toks=<id:owner,… by id>`
-obs (seq):   `idx=<TOKEN_INDEX> total=<TotalMintCount|-> m=<MintableNumTokens|-> cnt=… toks=…`
+         `coll_transfer|coll_send … gate= id= to=`, `noise … gate=` (ANY other message: what=setwl|price|start|end|tstart|pal|
+         disc|rmdisc|status|migrate|fmax|coll_mint|coll_own|coll_accept|x:<unknown ExecuteMsg variant>|sx:<unknown SudoMsg variant>), `t …`
+Ops (seq):   `mint|mint_to … gate= owner=`, `burn_remaining`, `purge`, `coll_burn`, `coll_transfer|coll_send`, `noise`, `t`
+Answer: `ok [id=<minted id> to=<its owner>] <obs>` | `err <obs>`  (the state after a failed op is printed too: it must be unchanged)
+
+PROJECTION (round 3). `<obs>` = `<primary> ## <drift>`; only `<primary>` decides agreement:
+  primary (fixed): `m=<MintableNumTokens> pos=<position:id,…> cnt=<NumTokens> ids=<token ids in the collection, ascending>`
+  primary (seq):   `idx=<TOKEN_INDEX> total=<TotalMintCount|-> m=<MintableNumTokens|-> cnt=… ids=…`
+  drift: `own=<id:owner,…>` (who holds which token after transfers: cw721's business), `rep=<token_id attribute of the minter's
+  own response|->` (event attribute names are not part of the property), `sup=<-|0|1>` (for an op that failed with the gate
+  closed: would the SUPPLY guards have rejected it? the harness prints whether the error TEXT looked like a supply error — a
+  spurious "sold out" shows up as DRIFT, never as a failure, and nothing else depends on error texts).
 -/
 open LP LP.Proto LP.Supply
 
@@ -22,15 +30,27 @@ inductive St where
   | fixed (s : Fixed)
   | seq (s : Seq)
 
+def sortedToks (c : Coll) : List (Nat × Nat) := c.toks.mergeSort (fun a b => a.1 ≤ b.1)
+
+/-- primary part: `NumTokens` and the SET of token ids -/
 def renderColl (c : Coll) : String :=
-  s!"cnt={c.count} toks={renderPairs (c.toks.mergeSort (fun a b => a.1 ≤ b.1))}"
+  s!"cnt={c.count} ids={renderNats ((sortedToks c).map (·.1))}"
 
-def obsFixed (s : Fixed) : String :=
-  s!"m={s.queryMintable} pos={renderPairs s.pos} {renderColl s.coll}"
+/-- drift part: owners, the minter's reported id, the supply-guard verdict for a gate-closed failure -/
+def renderDrift (c : Coll) (rep sup : String) : String :=
+  s!"own={renderPairs (sortedToks c)} rep={rep} sup={sup}"
 
-def obsSeq (s : Seq) : String :=
+def obsFixed (s : Fixed) (rep sup : String) : String :=
+  s!"m={s.queryMintable} pos={renderPairs s.pos} {renderColl s.coll} ## {renderDrift s.coll rep sup}"
+
+def obsSeq (s : Seq) (rep sup : String) : String :=
   let total := if s.kind = .base then "-" else toString s.totalMint
-  s!"idx={s.tokenIndex} total={total} m={renderOpt s.mintable} {renderColl s.coll}"
+  s!"idx={s.tokenIndex} total={total} m={renderOpt s.mintable} {renderColl s.coll} ## {renderDrift s.coll rep sup}"
+
+def supField (gate : Option Bool) (rejects : Bool) : String :=
+  match gate with
+  | some false => if rejects then "1" else "0"
+  | _ => "-"
 
 def seqKindOf : Nat → Option SeqKind
   | 6 => some .openEdition
@@ -43,14 +63,14 @@ def header (ws : List String) : St × String :=
   match kv ws "fam" with
   | some "fixed" =>
     match (do let n ← natKv ws "n"; let init ← natListKv ws "init"; Fixed.init n init) with
-    | some s => (.fixed s, s!"case ok {obsFixed s}")
+    | some s => (.fixed s, s!"case ok {obsFixed s "-" "-"}")
     | none => (.none, "case err")
   | some "seq" =>
     match (do
       let k ← (natKv ws "kind").bind seqKindOf
       let num ← optNatKv ws "num"; let fmax ← natKv ws "fmax"; let e ← boolKv ws "end"
       pure (Seq.create k num fmax e)) with
-    | some s => (.seq s, s!"case ok {obsSeq s}")
+    | some s => (.seq s, s!"case ok {obsSeq s "-" "-"}")
     | none => (.none, "case err")
   | _ => (.none, "case err")
 
@@ -67,7 +87,7 @@ def fixedOp (ws : List String) : Option FOp :=
   | some "purge" => do let g ← boolKv ws "gate"; pure (.purge g)
   | some "burn_remaining" => do let g ← boolKv ws "gate"; pure (.burnRemaining g)
   | some "coll_burn" => do let g ← boolKv ws "gate"; let id ← natKv ws "id"; pure (.collBurn g id)
-  | some "coll_transfer" => do
+  | some "coll_transfer" | some "coll_send" => do
     let g ← boolKv ws "gate"; let id ← natKv ws "id"; let to ← natKv ws "to"; pure (.collTransfer g id to)
   | some "noise" => do let g ← boolKv ws "gate"; pure (.noise g)
   | some "t" => pure (.noise true)
@@ -79,7 +99,7 @@ def seqOp (ws : List String) : Option QOp :=
   | some "purge" => do let g ← boolKv ws "gate"; pure (.purge g)
   | some "burn_remaining" => do let g ← boolKv ws "gate"; pure (.burnRemaining g)
   | some "coll_burn" => do let g ← boolKv ws "gate"; let id ← natKv ws "id"; pure (.collBurn g id)
-  | some "coll_transfer" => do
+  | some "coll_transfer" | some "coll_send" => do
     let g ← boolKv ws "gate"; let id ← natKv ws "id"; let to ← natKv ws "to"; pure (.collTransfer g id to)
   | some "noise" => do let g ← boolKv ws "gate"; pure (.noise g)
   | some "t" => pure (.noise true)
@@ -88,25 +108,32 @@ def seqOp (ws : List String) : Option QOp :=
 def c01Step (st : St) (line : String) : St × String :=
   let ws := words line
   if ws.head? == some "case" then header ws
-  else match st with
+  else
+    let gate := boolKv ws "gate"
+    match st with
     | .none => (st, "no-case")
     | .fixed s =>
       match fixedOp ws with
       | none => (st, "bad-op")
       | some op =>
         match s.step op with
-        | none => (st, s!"err {obsFixed s}")
+        | none => (st, s!"err {obsFixed s "-" (supField gate (s.supplyRejects op))}")
         | some s' =>
-          let idPart := if op.isMint then s!"id={s'.minted.headD 0} " else ""
-          (.fixed s', s!"ok {idPart}{obsFixed s'}")
+          if op.isMint then
+            let id := s'.minted.headD 0
+            (.fixed s', s!"ok id={id} to={renderOpt (s'.coll.ownerOf id)} {obsFixed s' (toString id) "-"}")
+          else (.fixed s', s!"ok {obsFixed s' "-" "-"}")
     | .seq s =>
       match seqOp ws with
       | none => (st, "bad-op")
       | some op =>
         match s.step op with
-        | none => (st, s!"err {obsSeq s}")
+        | none => (st, s!"err {obsSeq s "-" (supField gate (s.supplyRejects op))}")
         | some s' =>
-          let idPart := if op.isMint then s!"id={s'.issued.headD 0} " else ""
-          (.seq s', s!"ok {idPart}{obsSeq s'}")
+          if op.isMint then
+            let id := s'.issued.headD 0
+            let rep := if s.kind = .base then "-" else toString id
+            (.seq s', s!"ok id={id} to={renderOpt (s'.coll.ownerOf id)} {obsSeq s' rep "-"}")
+          else (.seq s', s!"ok {obsSeq s' "-" "-"}")
 
 def main : IO Unit := runDriverRaw St.none c01Step
